@@ -14,23 +14,23 @@ RULE = ("Genomes of 1..4 contigs (optionally with an ignored contig that is not 
         "from the genome's names, one unknown name and one ignored name (all subsets in all orders: 1957 sequences for six labels), each group "
         "holding one or two entries, crossed with chunkings that cut between and inside groups. Entries of one contig are contiguous (the "
         "property's precondition). Consumers: list(iter_chromosomes(...)); bnp.compute of get_pileup().get_data(), of get_mask().sum(), of "
-        "get_intervals(stream).compute(); Genome.get_track(stream); MultiStream attributes zipped with lengths; forbes and jaccard. "
+        "get_intervals(stream).compute(); Genome.get_track(stream); MultiStream attributes zipped with lengths; forbes and jaccard; left_join of the contig list with the grouped stream (the join the streamed pileup is built on). "
         "Oracle (decision table on the group sequence): drop ignored names; if an unknown name remains an exception is required; else if the "
         "remaining names are in genome order the evaluation must complete, contig i receiving exactly the entries carrying its name and contigs "
         "without data an empty table; otherwise an exception is required. Whenever an evaluation completes, the multiset of entries seen "
         "across contigs must equal the multiset of non-ignored input entries, each under its own contig. "
         "Non-trivial: a sequence that disagrees with genome order, or contains an unknown or ignored name, or leaves a contig without data.")
 ASSUMPTIONS = [
-    "MultiStream, forbes and jaccard take a plain name->size mapping and have no notion of ignored names: a name outside the mapping is unknown to them.",
+    "MultiStream, forbes, jaccard and left_join take a plain name->size mapping and have no notion of ignored names: a name outside the mapping is unknown to them.",
     "Which exception is raised is not compared.",
 ]
 REQUIRED_CLASSES = ["in-order", "misordered", "unknown-name", "ignored-name", "contig-without-data", "cut-inside-group", "last-group-misplaced",
                     "iter", "pileup", "mask-sum", "compute", "track", "multistream", "forbes-jaccard", "kept-underscore-name", "text-typed-contig-column", "long-groups"]
-BOUNDS = {"quick": "genomes of 3 contigs (+1 ignored): every group sequence over 5 labels (326) x 3 chunkings x 7 consumers; 4-contig genomes sampled (600)",
-          "thorough": "genomes of up to 4 contigs: every group sequence over 6 labels (1957) x 4 chunkings x 7 consumers; 48000 sampled"}
+BOUNDS = {"quick": "genomes of 3 contigs (+1 ignored): every group sequence over 5 labels (326) x 3 chunkings x 8 consumers; 4-contig genomes sampled (600)",
+          "thorough": "genomes of up to 4 contigs: every group sequence over 6 labels (1957) x 4 chunkings x 8 consumers; 48000 sampled"}
 BUDGET_S = {"quick": 200, "thorough": 1500}
 
-CONSUMERS = ["iter", "pileup", "mask-sum", "compute", "track", "multistream", "forbes-jaccard"]
+CONSUMERS = ["iter", "pileup", "mask-sum", "compute", "track", "multistream", "forbes-jaccard", "left-join"]
 
 
 def _where(e):
@@ -42,7 +42,7 @@ def verdict(case):
     """'ok' or 'must-raise', and the per-contig expected entries"""
     genome = [n for n, _ in case["genome"]]
     ignored = set(case.get("ignored", []))
-    consumer_ignores = case["consumer"] not in ("multistream", "forbes-jaccard")
+    consumer_ignores = case["consumer"] not in ("multistream", "forbes-jaccard", "left-join")
     seq = [g for g in case["groups"]]
     if consumer_ignores:
         seq = [g for g in seq if g not in ignored]
@@ -191,6 +191,17 @@ def check(case, stats=None):
             seen = {n: list(zip(t.start.tolist(), t.stop.tolist())) for n, t in zip(names, out)}
             if len(out) != len(names):
                 return [Failure("C12:multistream-wrong-number-of-contigs", {"expected": names, "n_items": len(out)})]
+        elif consumer == "left-join":
+            # the join of the contig list with the grouped stream, as the streamed pileup uses it
+            from bionumpy.streams.left_join import left_join
+            names = [n for n, _ in case["genome"]]
+            out = list(left_join(iter([(n, s) for n, s in case["genome"]]), iter(bnp.groupby(stream(), "chromosome"))))
+            if [o[0] for o in out] != names:
+                return [Failure("C12:left-join-wrong-contigs", {"expected": names, "actual": [o[0] for o in out]})]
+            seen = {n: ([] if t is None else list(zip(t.start.tolist(), t.stop.tolist()))) for n, _, t in out}
+            for n, _, t in out:
+                if t is not None and len(t) and set(t.chromosome.tolist()) != {n}:
+                    return [Failure("C12:entries-under-wrong-contig", {"contig": n, "carries": sorted(set(t.chromosome.tolist()))})]
         elif consumer == "forbes-jaccard":
             from bionumpy.arithmetics import forbes, jaccard
             names = [n for n, _ in case["genome"]]
@@ -222,7 +233,7 @@ def check(case, stats=None):
         return [Failure(f"C12:raised-on-valid-order:{consumer}:{type(e).__name__}:{_where(e)}", {"error": repr(e)[:300] + " / " + repr(e.__cause__)[:200],
                                                                                                   "groups": case["groups"], "genome": case["genome"], "ignored": ignored})]
     # the evaluation completed
-    consumer_ignores = consumer not in ("multistream", "forbes-jaccard")
+    consumer_ignores = consumer not in ("multistream", "forbes-jaccard", "left-join")
     kept = [r for r in rows if not (consumer_ignores and r[0] in ignored)]
     if want == "must-raise":
         lost = None
